@@ -242,6 +242,12 @@ func checkC17(c C17Case) (o Outcome) {
 					// INMATCH, which no later run reads before clearing it again
 					pa, sa = maskInmatch(pa), maskInmatch(sa)
 				}
+				if sa == nil && c.Mode.Kind != "long" && snapshotHasInvalidUTF8(pa) && tolerate("F-C07-1") {
+					// the stored session holds a value that is not valid UTF-8 and cannot be
+					// loaded again (F-C07-1): there is nothing to read the "after" from
+					o.Tolerated = append(o.Tolerated, "F-C07-1")
+					break
+				}
 				if d := snapEqual(pa, sa); d != "" {
 					o.Viol = viol("refused-changes-session", "request %d: refused input %s changed the session's %s:\n before %+v\n after  %+v", i, describeVal(r.in), d, prev, s.After)
 					return
